@@ -1496,6 +1496,8 @@ lyd_new_path_update(struct lyd_node *node, const void *value, size_t value_len, 
 {
     LY_ERR ret = LY_SUCCESS;
     struct lyd_node *new_any;
+    union lyd_any_value any_val;
+    LYD_ANYDATA_VALUETYPE any_val_type;
 
     switch (node->schema->nodetype) {
     case LYS_CONTAINER:
@@ -1537,10 +1539,12 @@ lyd_new_path_update(struct lyd_node *node, const void *value, size_t value_len, 
         /* compare with the existing one */
         if (lyd_compare_single(node, new_any, 0)) {
             /* not equal, switch values (so that we can use generic node free) */
+            any_val = ((struct lyd_node_any *)new_any)->value;
+            any_val_type = ((struct lyd_node_any *)new_any)->value_type;
             ((struct lyd_node_any *)new_any)->value = ((struct lyd_node_any *)node)->value;
             ((struct lyd_node_any *)new_any)->value_type = ((struct lyd_node_any *)node)->value_type;
-            ((struct lyd_node_any *)node)->value.str = value;
-            ((struct lyd_node_any *)node)->value_type = value_type;
+            ((struct lyd_node_any *)node)->value = any_val;
+            ((struct lyd_node_any *)node)->value_type = any_val_type;
 
             *new_parent = node;
             *new_node = node;
